@@ -90,6 +90,21 @@ NASTY = ["a b", "é", "\x00", "\x7f", "\"<>\\^`{|}", "%zz", "%", "\udc80", "a\nb
 
 def c01_streams(rng, tier, budget):
     yield "quoters", quoter_stream(quoter_strings(rng, tier, budget), unquoters=[])
+    # outputs around the size of the compiled quoter's static buffer (8192) and its first heap growths: what has to be escaped sits
+    # BEFORE the boundary, AT it, or after it ("for every input … both backends" includes the long ones)
+    ks = (1,) if tier == "quick" else (1, 2, 3)
+    yield "length-layers", quoter_stream(gens.length_layer(8192, ks), quoters=["QUOTER", "PATH_QUOTER", "QUERY_REQUOTER", "FRAGMENT_QUOTER"], unquoters=[])
+    stl = Stream()
+    for head in ("a b/", "é", "\"<", "%zz", "x"):
+        for n in (8185, 8192, 8200, 16390):
+            tail = "x" * n
+            stl.obs_all(stl.new("http://example.com/" + head + tail), ["str", "raw_path", "bytes"])
+            stl.obs_all(stl.new("http://example.com/p?k=" + head.replace("/", "") + tail + "#" + head + tail), ["str", "raw_query_string", "raw_fragment", "bytes"])
+            b0 = stl.new("http://example.com/base")
+            stl.obs_all(stl.mod(b0, "truediv", enc(head.replace("/", "_") + tail)), ["str", "raw_path", "bytes"])
+            stl.obs_all(stl.mod(b0, "with_fragment", enc(head + tail)), ["str", "raw_fragment"])
+            stl.obs_all(stl.mod(b0, "with_user", enc(head + tail)), ["str", "raw_user"])
+    yield "long-components", stl
     # deterministic matrix: every entry point that accepts text × texts that must not survive raw × the contexts in which the
     # entry point takes a different route (user present or not, password present or not, authority present or not)
     st = Stream()
@@ -796,6 +811,13 @@ def c06_oracle(full, io, b):
             if a == "~" or dec(a) != exp:
                 out.append(fail(v, h, dn, f"{dn} = {None if a == '~' else dec(a)!r} but percent-decoding {rn} = {dec(r)!r} gives {exp!r}", "decoded-view",
                                 also=[v.n_of(h, rn)]))
+        # "parts" is the tuple of the decodings of "raw_parts" (the root marker '/' stays as it is)
+        a, r = v.get(h, "parts"), v.get(h, "raw_parts")
+        if a and r and not a.startswith("!") and not r.startswith("!"):
+            ap, rp = dlist_a(a), dlist_a(r)
+            exp = [x if (i == 0 and x == "/") else ref_unquote(x, **UQ_CFG["UNQUOTER"]) for i, x in enumerate(rp)]
+            if ap != exp:
+                out.append(fail(v, h, "parts", f"parts = {ap!r} is not the decoding {exp!r} of raw_parts = {rp!r}", "decoded-view", also=[v.n_of(h, "raw_parts")]))
         # query (multidict) view: valid UTF-8 escapes only (stdlib errors='replace' otherwise: listed known finding)
         qv, rq = v.get(h, "query"), v.get(h, "raw_query_string")
         if qv is not None and rq is not None and not qv.startswith("!") and not rq.startswith("!"):
@@ -893,6 +915,21 @@ def c06_streams(rng, tier, budget):
     n = int((200 if tier == "quick" else 3000) * budget)
     yield "urls", general_stream(rng, n, C06_OBS, enc_frac=0.3, with_join=False,
                                  mods=["with_user", "with_password", "with_fragment", "with_name", "with_path", "with_query", "truediv", "joinpath", "with_suffix"])
+    # every shape of a last path segment w.r.t. dots (leading, trailing, doubled, only dots, escaped dots and slashes), in both
+    # constructor modes and through with_name: name / suffix / suffixes decoded vs raw (deterministic — does not depend on the draw)
+    stn = Stream()
+    names = ["a", "a.b", "a.b.c", ".hidden", ".hidden.txt", "..cache", "...", "a.", "a..", "a..b", "a.b.", ".", "..", "a%2Eb", "a.%2E", "%2E%2Ecache", "a%20b.t%20x",
+             "a.b%2Fc", "é.ü", "a.%C3%A9", "a.%FF", "x.tar.gz", "x..gz", "-.-", "a b.c d", "",
+             # a malformed escape directly in front of escaped hex digits (only reachable with encoded=True): decoding twice would join them up
+             "a%%34%31", "%4%31", "seg%%32F", "x%C%33%A9", "%%2541", "%25%34%31", "%%%32%35"]
+    obs = C06_OBS + ["suffixes", "raw_suffixes"]
+    for nm in names:
+        for pre in ("http://h/d/", "/d/", "d/", "http://h/"):
+            stn.obs_all(stn.new(pre + nm), obs)
+            stn.obs_all(stn.new(pre + nm, encoded=True), obs)
+        if nm and "/" not in nm and "%" not in nm and nm not in (".", ".."):
+            stn.obs_all(stn.mod(stn.new("http://h/d/x"), "with_name", enc(nm), "F", "F"), obs)
+    yield "name-shapes", stn
     # alias-then-clean: a decoded value supplied in a form that canonicalises to the SAME raw text (lone surrogates are dropped,
     # pre-encoded text is kept) is supplied first, through every route; then the clean text is supplied and must read back unchanged,
     # whatever objects the internal caches share between the two
